@@ -85,7 +85,7 @@ claim("C08",
       "serialization of that entry; replay inserts exactly the records the entries carry; under CRC-detected damage of any set of frames the entries delivered are a subsequence of those written; under ARBITRARY damage inside one block (frame headers included) they are a sub-list of those written provided only genuine frames verify on the reader's path through that block. "
       "The unrestricted statement is false (known finding F4: a payload embedding a CRC-valid frame plus a damaged length field). Tied to the code by differential execution on frame-aimed and random "
       "in-place damage, with an oracle comparing recovered records against every record ever appended.",
-      "Length/type-field damage: stream-level theorem for arbitrary damage inside ONE block under the hypothesis NoEmbeddedPath (HeaderDamage.header_damage_sublist; F4 violates exactly that hypothesis: NoEmbedded_necessary), not yet lifted through open over files; several damaged blocks: oracle only. CRC-32 collision resistance is outside any proof.",
+      "Length/type-field damage: stream-level theorem for arbitrary damage inside ONE block under the hypothesis NoEmbeddedPath (HeaderDamage.header_damage_sublist; F4 violates exactly that hypothesis: NoEmbedded_necessary), lifted through open over files (open_header_damaged) and to the global invariant (C08_header_damage: open reports Corruption or every returned record was appended); several damaged blocks: oracle only. CRC-32 collision resistance is outside any proof.",
       "Coq proof (invariant for all images, codec soundness, damaged-stream theorem) + checked model/code correspondence + damage oracle")
 claim("C09",
       'Coq theorems (PropC09.v), END TO END: C09_damage_costs_one_entry / C09_from_fresh - from any state satisfying the global invariant (any history with restarts), after a clean drop, with the checksum/payload bytes of one frame of entry X damaged so that its CRC fails, open succeeds and every retained record not appended by X is still there with the same position and payload; layers: open over damaged files replays exactly the intact entries, replaying a legal log with one entry removed never fails and keeps every other record, stream-level theorems for any number of damaged frames (every block size and checksum function). Tied to the code by differential execution plus an oracle that damages every sampled writer frame (layout derived from the I/O trace) and requires all un-hit appends intact.',
@@ -94,11 +94,11 @@ claim("C09",
 claim("C02",
       "Coq theorems (PropC02.v), END TO END for every checksum function without zero-completion collisions: C02_crash_atomic - from any state satisfying the global invariant, under a flush-per-operation "
       "policy, for EVERY crash image of a call (cut between any two file-system effects or after any number of bytes of any write) open succeeds and the recovered abstract state is that of the completed calls, "
-      "or that plus the in-flight call; C02_history from a fresh directory; layers: the I/O trace of a call and the shape of every crash image, open on a torn stream (short last file included), stream-level "
+      "or that plus the in-flight call; C02_history from a fresh directory; the recovered log is fully usable (crash_recovered_usable: every continuation history refines the specification and a clean restart restores the state, over a junk-tolerant generalisation InvJ of the global invariant), a second crash during a later call or during the recovery's own effects recovers consistently (crash_recovered_crash, crash_recovered_self), histories with crashes anywhere (crash_histories) - for interrupted calls that neither roll over nor end in the last block of their file; layers: the I/O trace of a call and the shape of every crash image, open on a torn stream (short last file included), stream-level "
       "torn-write theorems (torn_read keeps the collision alternative explicit and holds for the real CRC). For the REAL CRC-32 the property is refuted (PropC02x.v, known finding F8: CRC-32 is affine, a torn-off "
       "payload tail d ++ rawcrc(d) is accepted as zeros) - found by the vacuity audit of these very theorems and reproduced on the crate on every run. Tied to the code by differential execution on crash images "
-      "cut before every kind of event and inside writes, plus a crash oracle with continuation workload and restart.",
-      "Premise no_zero_collision (false for Crc.crc32: F8). Continued use after a recovery that left a torn frame on disk: stream level and oracle only. Kernel write ordering assumed as the property states.",
+      "cut before every kind of event (every unlink window and the end of the trace always included) and inside writes (block-boundary tears included), plus a crash oracle with continuation workload, restart, and a second crash 0-9 effects into the recovery.",
+      "Premise no_zero_collision (false for Crc.crc32: F8). Continued use / second crash when the interrupted call rolls over or ends in the last block of its file: stream level and oracle only. Kernel write ordering assumed as the property states.",
       "Coq proof (trace and crash-image shape, open on torn streams, global invariant) + refutation for the real CRC + checked model/code correspondence + crash-image oracle")
 claim("C03",
       "Coq theorems (PropC03.v), END TO END under EVERY policy in both loss models: C03_process_crash / C03_power_loss - from a persist point followed by any further history under any policy, every image of "
